@@ -208,3 +208,56 @@ def tsan_keys(prop, txt):
         e = out.setdefault(key, dict(count=0, text=r['text'][:3500]))
         e['count'] += 1
     return out
+
+
+# ---------------------------------------------------------------------------------------------------------
+# valgrind memcheck logs (variant "memcheck": the plain -O2 build under valgrind; used for what ASan cannot see:
+# values that depend on uninitialised memory)
+MEMCHECK_KINDS = [
+    (re.compile(r'Conditional jump or move depends on uninitialised value'), 'uninitialised-branch'),
+    (re.compile(r'Use of uninitialised value'), 'uninitialised-use'),
+    (re.compile(r'Syscall param .* (uninitialised|unaddressable)'), 'uninitialised-syscall-param'),
+    (re.compile(r'Invalid read of size'), 'invalid-read'),
+    (re.compile(r'Invalid write of size'), 'invalid-write'),
+    (re.compile(r'Invalid free|Mismatched free'), 'invalid-free'),
+    (re.compile(r'Source and destination overlap'), 'overlap'),
+    (re.compile(r'Jump to the invalid address'), 'invalid-jump'),
+]
+MEMCHECK_FRAME = re.compile(r'^==\d+==\s+(?:at|by) 0x[0-9A-Fa-f]+: (.*?)(?: \(([^()]*)\))?\s*$')
+
+
+def memcheck_keys(prop, base):
+    """-> [(key, report text)] for every error block in base.memcheck.<pid>; key = prop:memcheck:<kind>:<innermost ompl function>"""
+    out = []
+    for f in sorted(glob.glob(base + '.memcheck.*')):
+        try:
+            lines = open(f, errors='replace').read().splitlines()
+        except OSError:
+            continue
+        i = 0
+        while i < len(lines):
+            body = re.sub(r'^==\d+== ?', '', lines[i])
+            kind = None
+            for rx, k in MEMCHECK_KINDS:
+                if rx.search(body):
+                    kind = k
+                    break
+            if kind is None:
+                i += 1
+                continue
+            block, funcs = [lines[i]], []
+            i += 1
+            while i < len(lines) and re.sub(r'^==\d+== ?', '', lines[i]).strip() != '':
+                block.append(lines[i])
+                m = MEMCHECK_FRAME.match(lines[i])
+                # only the access stack (frames before an "Uninitialised value was created" / "Address ... is" line)
+                if re.search(r'Uninitialised value was created|Address 0x', lines[i]):
+                    # keep reading the block for the witness, but stop collecting frames
+                    funcs.append(None)
+                if m and None not in funcs:
+                    funcs.append(norm_func(m.group(1)))
+                i += 1
+            frames = [x for x in funcs if x]
+            fn = next((x for x in frames if x.startswith('ompl::')), frames[0] if frames else '?')
+            out.append(('%s:memcheck:%s:%s' % (prop, kind, fn), '\n'.join(block[:40])))
+    return out
